@@ -16,11 +16,11 @@ U("c13_wildcard", ["C13"], "h_wildcard", ["C13/tr.c", "C13/file_tu.c"], _C13_REP
   cbmc_flags=["--unwind", "12", "--unwindset", "mmd_transclude_source:1,mmd_transclude_source.2:3", "--unwinding-assertions"], functions=["mmd_transclude_source"],
   callees={"d_string_*": "ghost sink", "scan_file": "ghost file system (records the requested path)", "path helpers (file.c), stack.c": "body", "libc": "byte-loop models / CBMC built-in"},
   min_obligations=50, timeout=600, cost=30, assumptions=_C13_STUBS)
-for _nf, _tier, _to in ((2, "quick", 600), (3, "thorough", 3000)):
+for _nf, _tier, _to in ((1, "quick", 600),):
     U("c13_graph_F%d" % _nf, ["C13", "C01"], "h_graph", ["C13/tr.c", "C13/file_tu.c"], _C13_REPO, plain=True, lib=_C13_SINK,
       defines=["-DSINK_CAP=9", "-DTRACK_ADVANCE", "-DSHAPED", "-DNFILES=%d" % _nf], kind="bounded", tier=_tier,
       bounds={"files": _nf, "file content": "{{x}} with x a symbolic byte (one marker per file)", "file path": "/p with p a symbolic byte",
               "top-level source": "c0{{x}}c1, three symbolic bytes", "recursion depth<=": "number of files (recursion unwinding assertion)", "unwind": 10},
-      cbmc_flags=["--unwind", "10", "--unwindset", "mmd_transclude_source:%d,mmd_transclude_source.2:2,mmd_transclude_source.0:%d" % (_nf, _nf + 3), "--unwinding-assertions", "--max-field-sensitivity-array-size", "1100"], functions=["mmd_transclude_source"],
+      cbmc_flags=["--unwind", "10", "--unwindset", "mmd_transclude_source:%d,mmd_transclude_source.2:2,mmd_transclude_source.0:%d" % (_nf, _nf + 3), "--unwinding-assertions"], functions=["mmd_transclude_source"],
       callees={"d_string_*": "ghost sink", "scan_file": "ghost file system; asserts the recursion guard", "strstr": "byte-loop model + ghost variant check", "path helpers (file.c), stack.c": "body"},
       min_obligations=50, timeout=_to, cost=60, assumptions=_C13_STUBS + ["documents have no metadata block in this unit (engine stub answers 'no metadata')"])
